@@ -255,12 +255,52 @@ func comparePrerelease(a, b string) int {
 		return 0
 	}
 
-	// Lexicographic comparison for prereleases
-	if a < b {
+	// Compare dot-separated identifiers according to semver rules
+	aParts := strings.Split(a, ".")
+	bParts := strings.Split(b, ".")
+	for i := 0; i < len(aParts) && i < len(bParts); i++ {
+		if cmp := compareIdentifier(aParts[i], bParts[i]); cmp != 0 {
+			return cmp
+		}
+	}
+
+	// A larger set of identifiers has higher precedence when all preceding ones are equal
+	return compareInt(len(aParts), len(bParts))
+}
+
+// compareIdentifier compares two prerelease identifiers: numeric identifiers
+// are compared numerically and are lower than alphanumeric ones, which are
+// compared in ASCII order.
+func compareIdentifier(a, b string) int {
+	aIsNum := isNumericIdentifier(a)
+	bIsNum := isNumericIdentifier(b)
+
+	if aIsNum && bIsNum {
+		a = strings.TrimLeft(a, "0")
+		b = strings.TrimLeft(b, "0")
+		if len(a) != len(b) {
+			return compareInt(len(a), len(b))
+		}
+		return strings.Compare(a, b)
+	}
+	if aIsNum {
 		return -1
 	}
-	if a > b {
+	if bIsNum {
 		return 1
 	}
-	return 0
+	return strings.Compare(a, b)
+}
+
+// isNumericIdentifier returns true if s consists of digits only
+func isNumericIdentifier(s string) bool {
+	if s == "" {
+		return false
+	}
+	for _, r := range s {
+		if r < '0' || r > '9' {
+			return false
+		}
+	}
+	return true
 }
